@@ -61,11 +61,16 @@ class Impl:
                 "body": list(fr.message)}
 
 
-def replay(msgs, pat, via_node=False):
-    """pat: list of (i, k) with i 1-based message index, (0,0) = application dequeues"""
+def replay(msgs, pat, via_node=False, prefill=0):
+    """pat: list of (i, k) with i 1-based message index, (0,0) = application dequeues
+    prefill: unrelated single-frame messages already waiting in the queue when the pattern starts (6 = queue exactly full)"""
     impl = Impl(via_node)
     ev = []
     ndel = 0
+    for i in range(prefill):
+        f = {"from": 0o5, "to": ME, "id": 0x700 + i, "type": 9, "reserved": 0, "body": [0o5, 0x70 + i, 0]}
+        impl.recv(f)
+        ev.append(dict(op="plain", fr=f))
     for (i, k) in pat:
         if i == 0:
             r = impl.deq()
@@ -85,12 +90,13 @@ def replay(msgs, pat, via_node=False):
 
 
 def _replay_many(args):
-    msgs, pats, via = args
+    msgs, pats, via = args[:3]
+    prefill = args[3] if len(args) > 3 else 0
     sim.install(sim.Sched())
     out = []
     for p in pats:
-        t, nd = replay(msgs, p, via)
-        out.append((t if nd else None, nd))
+        t, nd = replay(msgs, p, via, prefill)
+        out.append((t if nd > prefill or (prefill and any(e["op"] == "deq" and e["has"] and e["res"]["from"] != 0o5 for e in t["ev"])) else None, nd))
     return out
 
 
@@ -129,6 +135,8 @@ def canon(trace, at):
     for e in trace["ev"][:at]:
         if e["op"] == "deq":
             out.append("deq" if e["has"] else "deq0")
+        elif e["op"] == "plain":
+            out.append("plain")
         else:
             a = names.setdefault(e["m"], "abcdefgh"[len(names)])
             out.append("%s%d/%d" % (a, e["k"], trace["msgs"][e["m"] - 1]["n"]))
@@ -169,6 +177,17 @@ def run(chk):
                     chk.traces += 1
                     if t:
                         traces.append(t)
+            # the same patterns met by a queue that already holds 5 or 6 unrelated frames (6 = exactly full: the completed
+            # message is refused; whatever the node keeps of it must not come back later)
+            for pre in (6, 5):
+                sub = pats_[:: (3 if quick else 1)] if kind == "exhaustive" else pats_[:: (4 if quick else 2)]
+                chunks = [sub[i::32] for i in range(32)]
+                for ch, res in zip(chunks, ex.map(_replay_many, [(msgs_, c, False, pre) for c in chunks])):
+                    for p, (t, nd) in zip(ch, res):
+                        chk.case(("f%d" % pre, kind, tuple(p)))
+                        chk.traces += 1
+                        if t:
+                            traces.append(t)
     chk.extra["patterns_with_delivery"] = len(traces)
     if traces:
         chk.sample(dict(kind="recorded trace", msgs=traces[0]["msgs"], ev=traces[0]["ev"][:6]))
